@@ -25,6 +25,7 @@ import (
 	"encoding/json"
 	"fmt"
 	"os"
+	"path/filepath"
 	"runtime"
 	"runtime/metrics"
 	"sort"
@@ -516,7 +517,39 @@ func c09full(tier string, i, n int) bool {
 	return n <= 2048 && i%8 == 0
 }
 
+// c09Cases replays the stored witnesses of every defect found so far (c09cases/*.json): a repaired defect coming back is
+// reported at once, whatever positions the tier enumerates
+func c09Cases(r *mc.Reporter) {
+	files, _ := filepath.Glob(filepath.Join(mc.Root, "c09cases", "*.json"))
+	sort.Strings(files)
+	e := &c09env{r: r, glyphs: 512, thor: true}
+	for _, p := range files {
+		raw, err := os.ReadFile(p)
+		if err != nil {
+			continue
+		}
+		var v struct {
+			Key  string  `json:"key"`
+			Case c09case `json:"case"`
+		}
+		if json.Unmarshal(raw, &v) != nil || v.Case.File == "" || v.Case.Kind == "none" || !strings.HasPrefix(v.Key, "C09:panic@") {
+			continue // the allocation class is a known finding and is found again by the enumeration itself
+		}
+		f := corpus.Get(v.Case.File)
+		if f == nil {
+			continue
+		}
+		cs := v.Case
+		e.one(c09apply(f.Data, &cs), &cs, len(f.Data))
+		r.Count("stored_witnesses_replayed", 1)
+	}
+}
+
 func c09Run(tier, shard string, r *mc.Reporter) {
+	if shard == "cases" {
+		c09Cases(r)
+		return
+	}
 	parts := strings.Split(shard, "/")
 	i, _ := strconv.Atoi(parts[0])
 	blk, nblk := 0, 1
@@ -671,7 +704,7 @@ func c09Run(tier, shard string, r *mc.Reporter) {
 
 // largest files first: their shards are the longest
 func c09Shards(tier string) []string {
-	var s []string
+	s := []string{"cases"} // the witnesses of the defects repaired so far, first
 	for i := len(corpus.Files()) - 1; i >= 0; i-- {
 		k := c09blocks(tier, i)
 		for b := 0; b < k; b++ {
